@@ -22,7 +22,7 @@ func init() {
 			"(R-OPTGATE) optimize runs, for each element of the optimizations list in order, the optimizer registered under that very option, exactly when the option is enabled or absent from CompileOptions, on its own (config, tree); " +
 			"(R-DIREQ) sibling agreement between the Optimizations option and the ;;;; directive parser: both write CompileOptions[opt] = flag for every element of the optimizations list when the switch-all option is named, and for a single named option only under optimizerMap[opt] != nil — 'set programmatically or by directive comments, which must be equivalent'; " +
 			"plus the per-pass conditions decided under C10 (fold only constants through operators approved as stateless, only on success: R-FOLDGATE, R-FOLDOK, R-FOLDCONST, R-STATELESS), C16 (reordering only permutes and/or operands, stably: R-SORTGATE, R-STABLE, R-LESS) and C01 (fast-operator marking only for operators with exactly two leaf children: R-KIND), re-run here because each is a necessary condition of C02 too. " +
-			"NOT decided: that the re-derived jump/stack tables of the rewritten tree denote the same evaluation (table values), hence value equality across subsets.",
+			"(R-OPRESOLVE) the parser consults Config.OperatorMap only when the built-in table has no entry for the name, and the folder applies builtinOperators[name] for a built-in stateless name: the function folded at compile time is the function the node runs. NOT decided: that the re-derived jump/stack tables of the rewritten tree denote the same evaluation (table values), hence value equality across subsets.",
 		Run:       runC02,
 		Witnesses: c02Witnesses,
 	})
